@@ -8,7 +8,7 @@ CONSTANTS Depth, GEN
 VARIABLES n, h
 
 MCInit == Init /\ n = 0 /\ h = <<>>
-Obs == [ev |-> ev', cache |-> cache', served |-> served']
+Obs == [ev |-> ev', cache |-> cache', served |-> served', ever |-> ever', up |-> up']
 Bump == n < Depth /\ n' = n + 1 /\ h' = IF GEN THEN Append(h, Obs) ELSE h
 MCPublish  == (\E k \in Kids, v \in KeyVals : Publish(k, v)) /\ Bump
 MCWithdraw == (\E k \in Kids : Withdraw(k)) /\ Bump
@@ -17,7 +17,7 @@ MCAwait    == (\E k \in Kids : Await(k)) /\ Bump
 MCRefresh  == Refresh /\ Bump
 MCNext == MCPublish \/ MCWithdraw \/ MCToggle \/ MCAwait \/ MCRefresh
 MCSpec == MCInit /\ [][MCNext]_<<vars, n, h>>
-MCView == <<served, up, cache, ever, ev, n>>
-MCViewU == <<served, up, cache, ever, ev>>
+MCView == <<served, up, cache, ever, ev, warm, n>>
+MCViewU == <<served, up, cache, ever, ev, warm>>
 Emit == GEN => (n = 0 \/ PrintT(<<"REPLAY", ToJson(h)>>))
 =============================================================================
